@@ -55,6 +55,14 @@ def run(v, tier, replay):
     for cfg in (["MC_HopTubes_t.cfg"] if thorough else ["MC_HopTubes.cfg"]):
         r = lib.tlc("MC_HopTubes", cfg, timeout=1500)
         lib.tlc_must_pass(r, cfg); v.add_tlc(cfg + " (tube pair, protocol level)", r)
+    # liveness ("complete"): under a network that loses finitely often and delivers every frame it keeps
+    lcfg = "HopTubesLive.cfg" if thorough else "HopTubesLive_q.cfg"
+    r = lib.tlc("HopTubesLive", lcfg, timeout=2400)
+    lib.tlc_must_pass(r, lcfg); v.add_tlc(lcfg + " (liveness under fairness: everything written is eventually delivered, then end-of-stream; both ends reach closed)", r)
+    r = lib.tlc("HopTubesLive", "HopTubesLive_unfair.cfg", timeout=600)
+    v.add_tlc("HopTubesLive_unfair.cfg (a network that may starve a frame for ever: must violate)", r)
+    if r.kind != "temporal":
+        raise lib.Inconclusive("self-test: liveness without delivery fairness is not rejected (%s)" % r.kind)
     r = lib.tlc("MC_TubeReceiver", "MC_TubeReceiver_t.cfg", timeout=600)
     lib.tlc_must_pass(r, "MC_TubeReceiver_t"); v.add_tlc("MC_TubeReceiver_t.cfg (reassembly core, 7 steps, VIEW)", r)
     r = lib.tlc("MC_TubeReceiver", "MC_TubeReceiver.cfg", timeout=600)
